@@ -246,6 +246,7 @@ fn variants(c: &CBOR) -> Vec<(String, CBOR)> {
             for i in 1..v.len() { for j in i + 1..v.len() { let mut w = v.clone(); w.swap(i, j); out.push((format!("swap assertion elements {} and {}", i, j), arr(w))); } }
             for i in 1..v.len() { let mut w = v.clone(); w.push(v[i].clone()); out.push((format!("duplicate assertion element {} at the end", i), arr(w)));
                                   let mut w = v.clone(); w.insert(i, v[i].clone()); out.push((format!("duplicate assertion element {} in place", i), arr(w))); }
+            if v.is_empty() { return out; }
             out.push(("node with subject only".into(), arr(vec![v[0].clone()])));
             out.push(("empty node array".into(), arr(vec![])));
             for i in 1..v.len() { let mut w = v.clone(); w[i] = junk_leaf.clone(); out.push((format!("leaf in assertion slot {}", i), arr(w)));
@@ -257,7 +258,7 @@ fn variants(c: &CBOR) -> Vec<(String, CBOR)> {
             for (i, x) in v.iter().enumerate() { for (d, y) in variants(x) { let mut w = v.clone(); w[i] = y; out.push((format!("[{}] {}", i, d), arr(w))); } }
         }
         CBORCase::Map(m) => {
-            let (k, val) = m.iter().next().map(|(a, b)| (a.clone(), b.clone())).unwrap();
+            let Some((k, val)) = m.iter().next().map(|(a, b)| (a.clone(), b.clone())) else { return out };
             { let mut m2 = Map::new(); m2.insert(k.clone(), val.clone()); m2.insert(junk_leaf.clone(), junk_leaf.clone()); out.push(("assertion map with two entries".into(), m2.into())); }
             out.push(("assertion map with no entry".into(), Map::new().into()));
             for (d, y) in variants(&k) { let mut m2 = Map::new(); m2.insert(y, val.clone()); out.push((format!("pred {}", d), m2.into())); }
@@ -321,8 +322,10 @@ fn variants(c: &CBOR) -> Vec<(String, CBOR)> {
 fn decoder_verdict(input: &CBOR, alias: bool, desc: &str) -> R {
     let data = CBOR::to_tagged_value(200u64, input.clone()).to_cbor_data();
     op("try_from_cbor_data (mutated)");
+    // (the recogniser runs after the decoder: digests the mutation created get their order from the decoder's own comparisons)
+    let decoded = Envelope::try_from_cbor_data(data.clone());
     let verdict = grammar(&data);
-    match Envelope::try_from_cbor_data(data.clone()) {
+    match decoded {
         Err(_) => Ok(()),
         Ok(e) => {
             let out = bytes(&e);
@@ -375,12 +378,12 @@ fn byte_level() -> R {
     let pos = choice(good.len());
     let kind = choice(4);
     let mut data = good.clone();
-    let mut alias = false;
+    let alias = false;
     match kind {
         0 => { data[pos] ^= 1 << choice(8); }
         1 => { data.remove(pos); }
         2 => { data.insert(pos, [0x00u8, 0x20, 0x40, 0x60, 0x80, 0xa0, 0xd8, 0xf6, 0xff][choice(9)]); }
-        _ => { let v = [0x00u8, 0x17, 0x18, 0x19, 0x1b, 0x58, 0x5f, 0x78, 0x80, 0x9f, 0xa0, 0xbf, 0xc9, 0xd8, 0xf5, 0xfb, 0xff][choice(17)]; alias = v == 0x18 && data[pos] == 0xc9 && pos > 0 && data[pos - 1] == 0xd8; data[pos] = v; }
+        _ => { let v = [0x00u8, 0x17, 0x18, 0x19, 0x1b, 0x58, 0x5f, 0x78, 0x80, 0x9f, 0xa0, 0xbf, 0xc9, 0xd8, 0xf5, 0xfb, 0xff][choice(17)]; data[pos] = v; }
     }
     rt::note(format!("{} byte {} kind {}", s.show(), pos, kind));
     op("try_from_cbor_data (byte-level mutation)");
